@@ -7,6 +7,7 @@ import Mathlib.Algebra.Order.Ring.Cast
 import Mathlib.Data.Rat.Cast.Order
 import Mathlib.Tactic.NormNum
 import Mathlib.Tactic.Positivity
+import CBV.Gen.TC13
 
 namespace CBV.C13
 
